@@ -2,7 +2,8 @@
     minimal parentheses the precedence levels require: a sub-expression is put in
     parentheses exactly when its level is below the level of the position it stands in
     (left operands at the operator's level, right operands one above: binary operators
-    associate to the left). Steps are written in full ([axis::test[p]...]); the bare
+    associate to the left). With [ab = false] steps are written in full
+    ([axis::test[p]...]), with [ab = true] in their abbreviated forms; the bare
     root [/] is always parenthesised (after [/] a [*] or an operator name would be
     read as a step). Syn/RoundTrip.v proves that the model parser reads every rendering
     back to the AST it was made from. *)
@@ -71,29 +72,66 @@ Definition brackets (f : expr -> list tok) (ps : list expr) : list tok :=
 
 Definition parens (b : list tok) : list tok := TLPar :: b ++ [TRPar].
 
-Fixpoint rend (lvl : nat) (e : expr) {struct e} : list tok :=
+(** abbreviated steps ([ab = true]): [.], [..], [@test], the implicit child axis, and [//]
+    for a [descendant-or-self::node()] step that stands between two steps (or between the
+    root / a filter expression and a step) *)
+Definition is_dos (s : stp) : bool := match s with SAxis DescendantOrSelf NTNode [] => true | _ => false end.
+
+Definition join_steps (ab : bool) (f : stp -> list tok) : list stp -> list tok :=
+  fix go (l : list stp) : list tok :=
+    match l with
+    | [] => []
+    | s :: r =>
+        match r with
+        | [] => f s
+        | d :: r2 =>
+            match r2 with
+            | [] => f s ++ TSlash :: go r
+            | _ => if ab && is_dos d then f s ++ TSlashSlash :: go r2 else f s ++ TSlash :: go r
+            end
+        end
+    end.
+
+(** the steps after a leading [/] (absolute path, continuation of a filter expression) *)
+Definition lead_steps (ab : bool) (f : stp -> list tok) (steps : list stp) : list tok :=
+  match steps with
+  | d :: (_ :: _) as r => if ab && is_dos d then TSlashSlash :: join_steps ab f r else TSlash :: join_steps ab f steps
+  | _ => TSlash :: join_steps ab f steps
+  end.
+
+Fixpoint rend (ab : bool) (lvl : nat) (e : expr) {struct e} : list tok :=
   let body :=
     match e with
-    | EOr a b => rend 0 a ++ TName (lit "or") :: rend 1 b
-    | EAnd a b => rend 1 a ++ TName (lit "and") :: rend 2 b
-    | ECmp op a b => rend (cmp_level op) a ++ cmp_tok op :: rend (S (cmp_level op)) b
-    | EArith op a b => rend (ar_level op) a ++ ar_tok op :: rend (S (ar_level op)) b
-    | ENeg a => TMinus :: rend 6 a
-    | EUnion a b => rend 7 a ++ TPipe :: rend 8 b
+    | EOr a b => rend ab 0 a ++ TName (lit "or") :: rend ab 1 b
+    | EAnd a b => rend ab 1 a ++ TName (lit "and") :: rend ab 2 b
+    | ECmp op a b => rend ab (cmp_level op) a ++ cmp_tok op :: rend ab (S (cmp_level op)) b
+    | EArith op a b => rend ab (ar_level op) a ++ ar_tok op :: rend ab (S (ar_level op)) b
+    | ENeg a => TMinus :: rend ab 6 a
+    | EUnion a b => rend ab 7 a ++ TPipe :: rend ab 8 b
     | ELit s => [TLiteral s]
     | ENum s => [TNumber s]
     | EVar q => [TVar q]
-    | ECall q args => qname_toks q ++ TLPar :: sep_by TComma (rend 0) args ++ [TRPar]
-    | EPath abs steps => (if abs then [TSlash] else []) ++ sep_by TSlash rend_step steps
+    | ECall q args => qname_toks q ++ TLPar :: sep_by TComma (rend ab 0) args ++ [TRPar]
+    | EPath abs steps => if abs then lead_steps ab (rend_step ab) steps else join_steps ab (rend_step ab) steps
     | EFilter e0 preds steps =>
-        (if simple_primary e0 then rend 0 e0 else parens (rend 0 e0)) ++ brackets (rend 0) preds
-        ++ match steps with [] => [] | _ => TSlash :: sep_by TSlash rend_step steps end
+        (if simple_primary e0 then rend ab 0 e0 else parens (rend ab 0 e0)) ++ brackets (rend ab 0) preds
+        ++ match steps with [] => [] | _ => lead_steps ab (rend_step ab) steps end
     end in
   if Nat.ltb (level e) lvl || bare_root e then parens body else body
-with rend_step (s : stp) {struct s} : list tok :=
+with rend_step (ab : bool) (s : stp) {struct s} : list tok :=
   match s with
-  | SAxis a t preds => TName (axis_name a) :: TColonColon :: rend_test t ++ brackets (rend 0) preds
-  | SCall q args => qname_toks q ++ TLPar :: sep_by TComma (rend 0) args ++ [TRPar]
+  | SAxis a t preds =>
+      let explicit := TName (axis_name a) :: TColonColon :: rend_test t ++ brackets (rend ab 0) preds in
+      if ab then
+        match a with
+        | Self => match t, preds with NTNode, [] => [TDot] | _, _ => explicit end
+        | Parent => match t, preds with NTNode, [] => [TDotDot] | _, _ => explicit end
+        | Attribute => TAt :: rend_test t ++ brackets (rend ab 0) preds
+        | Child => rend_test t ++ brackets (rend ab 0) preds
+        | _ => explicit
+        end
+      else explicit
+  | SCall q args => qname_toks q ++ TLPar :: sep_by TComma (rend ab 0) args ++ [TRPar]
   end.
 
 (** the ASTs the grammar produces: a relative path has at least one step and does not
@@ -138,4 +176,4 @@ Definition tok_str (t : tok) : str :=
     white space between any two tokens, including around the colon of a QName) *)
 Definition unlex (ts : list tok) : str := flat_map (fun t => tok_str t ++ [32%N]) ts.
 
-Definition render (e : expr) : str := unlex (rend 0 e).
+Definition render (ab : bool) (e : expr) : str := unlex (rend ab 0 e).
